@@ -38,6 +38,9 @@ pub(crate) fn is_valid(node: SvgNode) -> bool {
     start.is_some() || mid.is_some() || end.is_some()
 }
 
+/// The largest number of marker instances that may be created inside of other markers.
+const NESTED_MARKER_INSTANCES_LIMIT: usize = 100_000;
+
 pub(crate) fn convert(
     node: SvgNode,
     path: &tiny_skia_path::Path,
@@ -202,6 +205,15 @@ fn resolve(
             clip_path: clip_path.clone(),
             ..Group::empty()
         };
+
+        // An instance of a marker is a copy of its content, just like an instance of `use`.
+        // Markers inside of markers multiply: limit them, like the svgtree limits `use` expansion.
+        if !state.parent_markers.is_empty() {
+            cache.nested_marker_instances += 1;
+            if cache.nested_marker_instances > NESTED_MARKER_INSTANCES_LIMIT {
+                return;
+            }
+        }
 
         let mut marker_state = state.clone();
         marker_state.parent_markers.push(marker_node);
